@@ -13,6 +13,15 @@ MUTATORS = {"append", "extend", "insert", "pop", "remove", "clear", "update", "a
             "appendleft", "popleft", "sort", "reverse", "put_nowait", "set"}
 
 
+class _Const(ast.expr):
+    """an already evaluated value standing where an expression node is expected"""
+    _fields = ()
+
+    def __init__(self, val):
+        super().__init__()
+        self.val = val
+
+
 def assigned_names(stmts):
     out = set()
 
@@ -135,10 +144,15 @@ def frame_goals(h_now, base_a, base_alloc, allowed, keyed=()):
         if not keyed:
             return z3.BoolVal(False)
         is_keyed = z3.Or([r == kr for kr, _ in keyed])
-        other_key = z3.And([z3.Implies(r == kr, k_ != kk) for kr, kk in keyed])
+        attr_keys = [(kr, kk) for kr, kk in keyed if kk is not None]
+        val_objs = [kr for kr, kk in keyed if kk is None]           # vals(obj): any value may change, the key set / order may not
+        other_key = z3.And([z3.Implies(r == kr, k_ != kk) for kr, kk in attr_keys])
+        is_vals = z3.Or([r == kr for kr in val_objs]) if val_objs else z3.BoolVal(False)
+        has_attr = z3.Or([r == kr for kr, _ in attr_keys]) if attr_keys else z3.BoolVal(False)
         same = z3.And(h_now.a["llen"][r] == base_a["llen"][r], h_now.a["lel"][r] == base_a["lel"][r],
                       z3.ForAll([k_], z3.Implies(other_key, z3.And(h_now.a["dhas"][r][k_] == base_a["dhas"][r][k_],
-                                                                   h_now.a["dval"][r][k_] == base_a["dval"][r][k_]))))
+                                                                   z3.Or(is_vals, h_now.a["dval"][r][k_] == base_a["dval"][r][k_])))),
+                      z3.Implies(z3.Not(has_attr), z3.And([h_now.a[m][r] == base_a[m][r] for m in ("dlen", "dkey", "didx")])))
         return z3.And(is_keyed, same)
 
     for rs in idxs:
@@ -150,7 +164,7 @@ def frame_goals(h_now, base_a, base_alloc, allowed, keyed=()):
         cond = z3.And([r_ >= 0, r_ < base_alloc] + [r_ != m for m in allowed] + [r_ != kr for kr, _ in keyed])
         goals.append(("heap array %s unchanged outside the frame" % n,
                       z3.ForAll([r_], z3.Implies(cond, h_now.a[n][r_] == base_a[n][r_]), patterns=[h_now.a[n][r_]])))
-        if keyed and n in ("llen", "lel", "dhas", "dval"):
+        if keyed and (n in ("llen", "lel", "dhas", "dval") or any(kk is None for _, kk in keyed)):
             for kr, _ in keyed:
                 goals.append(("keyed object %s: heap array %s unchanged outside its listed attributes" % (str(kr)[:40], n),
                               z3.Or([kr == m for m in allowed] + [key_clause(kr)])))
@@ -200,13 +214,6 @@ class Verifier(Engine):
             env[gname] = T(gkind, t)
             if gkind == "V":
                 st.assume(z3.Implies(is_ref(t), z3.And(V.rv(t) >= 0, V.rv(t) < h.alloc)))
-        for gname in c.opts.get("ghost_lists", []):
-            r = z3.Int("ghostlist_" + gname)
-            st.assume(r == h.alloc)
-            h.alloc = r + 1
-            st.assume(typ(r) == cid("list"))
-            st.assume(h.llen(r) == 0)
-            env[gname] = tV(V.ref(r))
         if c.opts.get("block"):
             # the locals of the enclosing function that the block reads / writes: arbitrary values constrained by `requires`
             for vn, vk in c.opts.get("vars", {}).items():
@@ -215,6 +222,14 @@ class Verifier(Engine):
                     env[vn] = T(vk, t)
                     if vk == "V":
                         st.assume(z3.Implies(is_ref(t), z3.And(V.rv(t) >= 0, V.rv(t) < h.alloc)))
+        # ghost lists are allocated LAST: every parameter / block local refers to an object that existed before them
+        for gname in c.opts.get("ghost_lists", []):
+            r = z3.Int("ghostlist_" + gname)
+            st.assume(r == h.alloc)
+            h.alloc = r + 1
+            st.assume(typ(r) == cid("list"))
+            st.assume(h.llen(r) == 0)
+            env[gname] = tV(V.ref(r))
         entry = St(dict(env), h.copy(), [])
         fx.entry = entry
         for text, f in self.spec_conj(c.requires, st, None, fx):
@@ -245,6 +260,9 @@ class Verifier(Engine):
                             if first in hs and last in hs[hs.index(first):]:
                                 i0 = hs.index(first)
                                 found.append(lst[i0:i0 + hs[i0:].index(last) + 1])
+                                if c.opts.get("loop_body") and not (isinstance(n, (ast.For, ast.While, ast.AsyncFor)) and fld == "body"
+                                                                    and i0 + hs[i0:].index(last) + 1 == len(lst)):
+                                    raise CheckerError("block contract with loop_body=True must end with the last statement of a loop body (%s)" % c.func)
                 if len(found) != 1:
                     raise CheckerError("block contract: %d statement ranges match %r in %s" % (len(found), c.opts["block"], c.func))
                 body = found[0]
@@ -274,7 +292,7 @@ class Verifier(Engine):
             rec["frame"] = "checked at every exit: only %s and objects allocated by the call are written" % (list(c.assigns) or "nothing")
         for kind, payload, s in outs:
             rec["paths"] += 1
-            if frame_refs is not None and kind in (NORMAL, RETURN, RAISE):
+            if frame_refs is not None and kind in (NORMAL, RETURN, RAISE, CONTINUE):
                 ln = getattr(s, "line", fsrc.node.lineno)
                 for what, g in frame_goals(s.heap, entry.heap.a, entry.heap.alloc, frame_refs[0], frame_refs[1]):
                     self.emit(fx, "frame", ln, s, g, note="assigns %s: %s" % (list(c.assigns), what))
@@ -284,6 +302,10 @@ class Verifier(Engine):
                 self.check_post(fx, c, val, s, entry, getattr(s, "line", fsrc.node.lineno))
             elif kind == RAISE:
                 self.check_raise(fx, c, payload, s, entry)
+            elif kind == CONTINUE and c.opts.get("block") and c.opts.get("loop_body"):
+                # the block is (a prefix-closed part of) a loop body: `continue` ends this iteration like falling off its end
+                nret += 1
+                self.check_post(fx, c, tV(V.none), s, entry, getattr(s, "line", fsrc.node.lineno))
             else:
                 raise CheckerError("break/continue escaped function body")
         if not c.opts.get("block"):
@@ -606,6 +628,13 @@ class Verifier(Engine):
         if isinstance(t, ast.Attribute):
             obj = toV(self.ev(t.value, ec))
             ec.may_raise(z3.Not(is_obj(obj)), "AttributeError", line, "attribute assignment on a non-object")
+            sd = getattr(self.reg, "setters", {}).get(t.attr)
+            if sd is not None:
+                # a property setter declared by the sidecar: the write is a call of the (opaque, assumed) setter `recv.<attr> = arg0`
+                call = ast.copy_location(ast.Call(func=ast.Name(id=t.attr + ".setter", ctx=ast.Load()), args=[_Const(val)], keywords=[]), t)
+                call.lineno = line
+                self.call_opaque(t.attr + ".setter", tV(obj), call, ec, sd)
+                return
             self.dict_set(ec, V.rv(obj), sV(t.attr), toV(val))
             return
         if isinstance(t, ast.Subscript):
@@ -1105,12 +1134,17 @@ class Verifier(Engine):
         if isinstance(it, ast.Call) and isinstance(it.func, ast.Name) and it.func.id == "zip" and len(it.args) == 2 and "zip" not in st.env:
             n1, get1 = self.iter_domain(it.args[0], ec, line)
             n2, get2 = self.iter_domain(it.args[1], ec, line)
-            return z3.If(n1 <= n2, n1, n2), (lambda i: ("tuple", [get1(i), get2(i)]))
+            gz = (lambda i: ("tuple", [get1(i), get2(i)]))
+            gz.live = lambda i, hp: ("tuple", [_live(get1)(i, hp), _live(get2)(i, hp)])
+            gz.stab = getattr(get1, "stab", []) + getattr(get2, "stab", [])
+            return z3.If(n1 <= n2, n1, n2), gz
         if isinstance(it, ast.Call) and isinstance(it.func, ast.Name) and it.func.id == "enumerate":
             n, get = self.iter_domain(it.args[0], ec, line)
 
             def get2(i):
                 return ("tuple", [T("i", i), get(i)])
+            get2.live = lambda i, hp: ("tuple", [T("i", i), _live(get)(i, hp)])
+            get2.stab = getattr(get, "stab", [])
             return n, get2
         x = self.ev(it, ec)
         if x.k == "fn" and x.t[0] == "dictview":
@@ -1118,11 +1152,17 @@ class Verifier(Engine):
             r = V.rv(d)
             ec.may_raise(z3.Not(z3.And(is_ref(d), sub(typ(r), cid("dict")))), "AttributeError", line, ".%s() on a non-dict" % which)
             arr_k, dv = h.sel("dkey", r), h.sel("dval", r)
+            nd = h.dlen(r)
             if which == "keys":
-                return h.dlen(r), (lambda i: tV(arr_k[i]))
-            if which == "values":
-                return h.dlen(r), (lambda i: tV(dv[arr_k[i]]))
-            return h.dlen(r), (lambda i: ("tuple", [tV(arr_k[i]), tV(dv[arr_k[i]])]))
+                g = (lambda i: tV(arr_k[i]))
+            elif which == "values":
+                g = (lambda i: tV(dv[arr_k[i]]))
+                g.live = lambda i, hp: tV(hp.dget(r, arr_k[i]))       # a view is live: the value is read when the iteration gets there
+            else:
+                g = (lambda i: ("tuple", [tV(arr_k[i]), tV(dv[arr_k[i]])]))
+                g.live = lambda i, hp: ("tuple", [tV(arr_k[i]), tV(hp.dget(r, arr_k[i]))])
+            g.stab = [("dict", r, nd, arr_k)]
+            return nd, g
         if x.k == "lit":
             x = self.mat(x, ec)
             h = st.heap
@@ -1134,10 +1174,16 @@ class Verifier(Engine):
         r = V.rv(v)
         if self.must(st, is_listlike(v)):
             arr = h.sel("lel", r)
-            return h.llen(r), (lambda i: tV(arr[i]))
+            nl = h.llen(r)
+            g = (lambda i: tV(arr[i]))
+            g.stab = [("list", r, nl, arr)]
+            return nl, g
         if self.must(st, is_dictlike(v)):
             arr = h.sel("dkey", r)
-            return h.dlen(r), (lambda i: tV(arr[i]))
+            nd = h.dlen(r)
+            g = (lambda i: tV(arr[i]))
+            g.stab = [("dict", r, nd, arr)]
+            return nd, g
         if self.must(st, z3.Or(is_listlike(v), is_dictlike(v))):
             arrl, arrd = h.sel("lel", r), h.sel("dkey", r)
             isl = is_listlike(v)
@@ -1179,6 +1225,19 @@ class Verifier(Engine):
         k = fresh("k", IntS)
         hv.assume(z3.And(k >= 0, k <= n))
         boundk = {iname: T("i", k), nname: T("i", n)}
+        # the iteration runs over a snapshot of the container taken at loop entry: sound only while the loop leaves the items of an
+        # iterated list / the key order of an iterated dict alone.  That is an implicit loop invariant: assumed here, CHECKED at every
+        # back edge (obligation `iter-stable`) unless the loop frame leaves the container's arrays syntactically untouched.
+        stab_checks = []
+        for kind_, r_, n_, arr_ in getattr(get, "stab", []):
+            lenm, elm = ("llen", "lel") if kind_ == "list" else ("dlen", "dkey")
+            if hv.heap.sel(lenm, r_).eq(n_) and hv.heap.sel(elm, r_).eq(arr_):
+                continue
+            j_ = z3.Int("j!")
+            from .tr import forall as _forall
+            hv.assume(hv.heap.sel(lenm, r_) == n_)
+            hv.assume(_forall([j_], z3.Implies(z3.And(j_ >= 0, j_ < n_), hv.heap.sel(elm, r_)[j_] == arr_[j_]), [hv.heap.sel(elm, r_)[j_]]))
+            stab_checks.append((kind_, r_, n_, arr_, lenm, elm))
         self.assume_invs(sp, hv, fx, boundk)
         # exit: k == n
         ex = hv.copy()
@@ -1194,12 +1253,19 @@ class Verifier(Engine):
             if iname not in b.env:
                 b.env[iname] = T("i", k)      # ghost: the loop index stays visible to contracts of nested loops
             ecb = self.new_ec(b, fx)
-            self.bind_for_target(s.target, get(k), ecb, s.lineno)
+            self.bind_for_target(s.target, _live(get)(k, b.heap), ecb, s.lineno)
             o2, b = self.finish(ecb, b, fx, s.lineno)
             res += o2
             b.ghost = dict(b.ghost)
             for kind, payload, s2 in self.run_block(s.body, b, fx):
                 if kind in (NORMAL, CONTINUE):
+                    for kind_, r_, n_, arr_, lenm, elm in stab_checks:
+                        j_ = z3.Int("j!")
+                        from .tr import forall as _forall
+                        self.emit(fx, "iter-stable", s.lineno, s2, z3.And(
+                            s2.heap.sel(lenm, r_) == n_,
+                            _forall([j_], z3.Implies(z3.And(j_ >= 0, j_ < n_), s2.heap.sel(elm, r_)[j_] == arr_[j_]), [s2.heap.sel(elm, r_)[j_]])),
+                            note="the loop body leaves the %s of the iterated %s unchanged" % ("items" if kind_ == "list" else "keys", kind_))
                     self.back_edge(sp, s2, fx, s.lineno, stable, None, {iname: T("i", k + 1), nname: T("i", n)})
                 elif kind == BREAK:
                     res.append((NORMAL, None, s2))
@@ -1208,6 +1274,12 @@ class Verifier(Engine):
         return res
 
     st_AsyncFor = None
+
+
+def _live(get):
+    """the getter of an iteration domain that reads values of dict views from the heap of the current iteration"""
+    lv = getattr(get, "live", None)
+    return lv if lv is not None else (lambda i, hp: get(i))
 
 
 def stmt_header(s):
